@@ -27,6 +27,8 @@ type c01Case struct {
 	Words   [][]rt.Ev   `json:"words,omitempty"` // one per producer goroutine
 	SubAt   []int       `json:"subscribe_at,omitempty"`
 	Raw     bool        `json:"raw_observer"`
+	// PanicAtEnd (bare): the subscribe function panics after having played the word
+	PanicAtEnd bool `json:"subscribe_function_panics_at_end,omitempty"`
 }
 
 func init() {
@@ -57,10 +59,28 @@ func c01Run(t rt.TB, c c01Case) {
 	case "bare":
 		sink := rt.NewSink()
 		src := rt.NewScript("src", c.Ctor, c.Word)
+		src.PanicAtEnd = c.PanicAtEnd
 		rec := rt.NewRecorder[int]()
-		src.Observable().Subscribe(observerOf(rec, c.Raw))
+		var pan any
+		func() {
+			defer func() { pan = recover() }()
+			src.Observable().Subscribe(observerOf(rec, c.Raw))
+		}()
+		if pan != nil {
+			c01Fail(t, c, string(c.Ctor), "panic-escaped", fmt.Sprintf("%s over [%s] then a panic of the subscribe function: Subscribe panicked: %v", c.Ctor, rt.ScriptString(c.Word), pan))
+			return
+		}
 		if g := rec.Grammar(); g != "" {
-			c01Fail(t, c, string(c.Ctor), "delivery-after-terminal", fmt.Sprintf("%s over [%s]: %s", c.Ctor, rt.ScriptString(c.Word), g))
+			c01Fail(t, c, string(c.Ctor), "delivery-after-terminal", fmt.Sprintf("%s over [%s] (subscribe function panics at the end: %v): %s", c.Ctor, rt.ScriptString(c.Word), c.PanicAtEnd, g))
+		}
+		if c.PanicAtEnd {
+			// the recovered panic is one more Error: delivered if the stream was still open
+			if lateCount(c.Word) == 0 && scriptEnd(c.Word) == 0 {
+				if tr := rec.Trace(); tr.End != 'E' {
+					c01Fail(t, c, string(c.Ctor), "subscribe-panic-not-delivered", fmt.Sprintf("%s over [%s] then a panic of the subscribe function: ending %q", c.Ctor, rt.ScriptString(c.Word), tr.End))
+				}
+			}
+			return
 		}
 		if d := rec.Len() + sink.DroppedCount(); d != len(c.Word) {
 			c01Fail(t, c, string(c.Ctor), "late-notification-not-surfaced", fmt.Sprintf("%s over [%s]: delivered %d + dropped-hook %d != emitted %d", c.Ctor, rt.ScriptString(c.Word), rec.Len(), sink.DroppedCount(), len(c.Word)))
@@ -244,6 +264,9 @@ func TestC01_BareAndRowsEnumerated(t *testing.T) {
 				c := c01Case{Kind: "bare", Ctor: ctor, Word: w, Raw: raw}
 				c01Run(t, c)
 				rt.Case(caseKey("bare", ctor, w, raw), lateCount(w) > 0, "bare", func() any { return c })
+				cp := c01Case{Kind: "bare", Ctor: ctor, Word: w, Raw: raw, PanicAtEnd: true}
+				c01Run(t, cp)
+				rt.Case(caseKey("bare-panic", ctor, w, raw), true, "bare", func() any { return cp })
 			}
 		}
 	}
